@@ -105,6 +105,33 @@ MUTANTS = [
      "        for i in range(self.max_iter - (self.max_iter > 3)):\n            # Create batches", ["C10", "C04"]),
     ("batchify-overlap", "gemclus/_base_gemini.py", "            j += batch_size\n",
      "            j += batch_size if batch_size < 3 else batch_size - 1\n", ["C10"]),
+    ("kauri-depth-le", "gemclus/tree/kauri.py", "if parent_depth + 1 < max_depth:", "if parent_depth + 1 <= max_depth:", ["C09"]),
+    ("kauri-children-not-queued", "gemclus/tree/kauri.py", "                    if len(right_indices) >= self.min_samples_split:",
+     "                    if len(right_indices) > self.min_samples_split + 1:", ["C08"]),
+    ("kauri-predict-strict", "gemclus/tree/kauri.py", "X_left = X[:, self.features[node]] <= self.thresholds[node]",
+     "X_left = X[:, self.features[node]] < self.thresholds[node]", ["C09", "C19"]),
+    ("kauri-print-swapped", "gemclus/tree/kauri.py",
+     "        print_node(left_child)\n        print(\"| \" * current_depth, \"|=\", f\"{feature_name} > {threshold}\", sep=\"\")\n        print_node(right_child)",
+     "        print_node(right_child)\n        print(\"| \" * current_depth, \"|=\", f\"{feature_name} > {threshold}\", sep=\"\")\n        print_node(left_child)",
+     ["C19"]),
+    ("kauri-print-target-of-parent", "gemclus/tree/kauri.py",
+     'print("| " * current_depth, f"Cluster: {kauri_tree.tree_.target[node_id]}")',
+     'print("| " * current_depth, f"Cluster: {kauri_tree.tree_.target[max(node_id - 1, 0)]}")', ["C19"]),
+    ("kauri-print-names-by-rank", "gemclus/tree/kauri.py", "            feature_name = feature_names[feature]",
+     "            feature_name = feature_names[sorted(set(x for x in kauri_tree.tree_.features if x is not None)).index(feature)]", ["C19"]),
+    ("kauri-max-leaves-plus-one", "gemclus/tree/kauri.py",
+     "        max_leaves = self.max_leaves if self.max_leaves is not None else n",
+     "        max_leaves = self.max_leaves + 1 if self.max_leaves is not None else n", ["C09"]),
+    ("kauri-score-unnormalised", "gemclus/tree/kauri.py", "        return gemini_objective(y_pred, kernel)",
+     "        return gemini_objective(y_pred, kernel) / max(1, len(np.unique(y_pred)) - 3)", ["C09", "C08"]),
+    ("cpp-switch-sign", "gemclus/tree/_utils.cpp",
+     "__pyx_v_left_switch = (__pyx_v_left_switch + (__pyx_t_8 / ((__pyx_t_5numpy_float64_t)__pyx_v_delta_size_k_prime)));",
+     "__pyx_v_left_switch = (__pyx_v_left_switch - (__pyx_t_8 / ((__pyx_t_5numpy_float64_t)__pyx_v_delta_size_k_prime)));", ["C08"]),
+    ("cpp-min-leaf-off-by-one", "gemclus/tree/_utils.cpp", "__pyx_t_36 = (__pyx_v_l_split < (__pyx_v_min_leaf - 1));",
+     "__pyx_t_36 = (__pyx_v_l_split < (__pyx_v_min_leaf - 2));", ["C08", "C09"]),
+    ("cpp-last-threshold-skipped", "gemclus/tree/_utils.cpp",
+     "__pyx_t_36 = (__pyx_v_l_split > ((__pyx_v_n_leaf - __pyx_v_min_leaf) - 1));",
+     "__pyx_t_36 = (__pyx_v_l_split >= ((__pyx_v_n_leaf - __pyx_v_min_leaf) - 1));", ["C08"]),
 ]
 
 
@@ -120,6 +147,7 @@ def main():
     sh(f"git -C {WT} checkout -- .")
     head = sh("git -C /repo rev-parse HEAD").stdout.strip()
     sh(f"git -C {WT} checkout -q --detach {head}")
+    sh(f"cp /repo/gemclus/tree/_utils.cpp {WT}/gemclus/tree/_utils.cpp")
     missed = 0
     for name, rel, old, new, props in MUTANTS:
         if sel and not any(s in name for s in sel):
@@ -139,6 +167,8 @@ def main():
             if r.returncode != 1:
                 missed += 1
         sh(f"git -C {WT} checkout -- .")
+        if rel.endswith(".cpp"):
+            sh(f"cp /repo/gemclus/tree/_utils.cpp {WT}/gemclus/tree/_utils.cpp")
     # the evidence files were rewritten by runs against the scratch tree: the caller should re-run the real checks
     print(f"missed={missed}  (evidence/*.json now describe runs on the scratch tree - re-run checks on /repo before committing)")
     return 0
